@@ -5,6 +5,9 @@ import (
 	"math"
 	"math/bits"
 	"runtime"
+	"unsafe"
+
+	typ "gopkg.in/typ.v4"
 
 	"pgregory.net/rapid"
 	"verifharness/internal/pbt"
@@ -113,17 +116,25 @@ func enumBig(shard, shards int, tier string, yield func(Long) bool) {
 	cuts := func(n int) []int { return []int{0, n / 3, n / 2, n - n/16, n - 1} }
 	hugeSpare := &View{Off: 2, Spare: 1<<17 + 1} // more than 1 MiB of unused capacity for 8-byte elements
 
-	for _, n := range bigSizes {
+	sizes, strSizes := bigSizes, bigStrSizes
+	if tier != "thorough" { // quick: 2^14 .. 2^17 (+-1) and 49152; strings additionally 2^20 (+-1)
+		sizes = append(append([]int{}, bigSizes[3:15]...), 3<<14)
+		strSizes = append(append([]int{}, sizes...), 1<<20-1, 1<<20, 1<<20+1)
+	}
+	for _, n := range sizes {
 		// ---- integers
-		for _, tn := range []string{"int8", "int64", "uint64", "myInt32"} {
+		for ti, tn := range []string{"int8", "int64", "uint64"} {
 			if stop {
 				return
 			}
 			wt := wideType(tn)
 			iv := func(x int64) uint64 { return uint64(x) & wt.mask() }
-			for _, p := range positions(n) {
-				emit(Long{Fn: "Min", Type: tn, N: n, Pat: []uint64{iv(5), iv(6), iv(7)}, Spots: []Spot{{Pos: p, Bits: iv(3)}}})
-				emit(Long{Fn: "Max", Type: tn, N: n, Pat: []uint64{iv(5), iv(6), iv(7)}, Spots: []Spot{{Pos: p, Bits: iv(9)}}})
+			for i, p := range positions(n) {
+				if (i+ti)%2 == 0 {
+					emit(Long{Fn: "Min", Type: tn, N: n, Pat: []uint64{iv(5), iv(6), iv(7)}, Spots: []Spot{{Pos: p, Bits: iv(3)}}})
+				} else {
+					emit(Long{Fn: "Max", Type: tn, N: n, Pat: []uint64{iv(5), iv(6), iv(7)}, Spots: []Spot{{Pos: p, Bits: iv(9)}}})
+				}
 			}
 			for _, p := range cuts(n) {
 				emit(Long{Fn: "Min", Type: tn, N: n, Pat: []uint64{iv(5)}, Spots: []Spot{{Pos: p, Bits: wt.minBits()}}})
@@ -142,7 +153,7 @@ func enumBig(shard, shards int, tier string, yield func(Long) bool) {
 			emit(Long{Fn: "Max", Type: tn, N: n, Pat: []uint64{iv(1), iv(2)}, View: hugeSpare})
 		}
 		// ---- floats: every sum and product below depends on the order of evaluation
-		for _, tn := range []string{"float32", "float64"} {
+		for ti, tn := range []string{"float32", "float64"} {
 			if stop {
 				return
 			}
@@ -152,9 +163,12 @@ func enumBig(shard, shards int, tier string, yield func(Long) bool) {
 			if wt.bits == 32 {
 				big, small = 1e8, 0x1p-30
 			}
-			for _, p := range positions(n) {
-				emit(Long{Fn: "Min", Type: tn, N: n, Pat: []uint64{fv(5), fv(-6), fv(7.5)}, Spots: []Spot{{Pos: p, Bits: fv(-6.5)}}})
-				emit(Long{Fn: "Max", Type: tn, N: n, Pat: []uint64{fv(5), fv(-6), fv(7.5)}, Spots: []Spot{{Pos: p, Bits: fv(math.Inf(1))}}})
+			for i, p := range positions(n) {
+				if (i+ti)%2 == 0 {
+					emit(Long{Fn: "Min", Type: tn, N: n, Pat: []uint64{fv(5), fv(-6), fv(7.5)}, Spots: []Spot{{Pos: p, Bits: fv(-6.5)}}})
+				} else {
+					emit(Long{Fn: "Max", Type: tn, N: n, Pat: []uint64{fv(5), fv(-6), fv(7.5)}, Spots: []Spot{{Pos: p, Bits: fv(math.Inf(1))}}})
+				}
 			}
 			emit(Long{Fn: "Min", Type: tn, N: n, Pat: []uint64{fv(0), fv(math.Copysign(0, -1))}})
 			emit(Long{Fn: "Sum", Type: tn, N: n, Pat: []uint64{fv(0.1)}})
@@ -191,7 +205,7 @@ func enumBig(shard, shards int, tier string, yield func(Long) bool) {
 		}
 	}
 	// ---- two long strings: equal, differing at the first / middle / last byte, one a prefix of the other
-	for _, n := range bigStrSizes {
+	for _, n := range strSizes {
 		if stop {
 			return
 		}
@@ -204,7 +218,11 @@ func enumBig(shard, shards int, tier string, yield func(Long) bool) {
 				if i > 0 && j > 0 && i != j && (i+j)%2 == 0 { // thin out the pairs of two edited strings
 					continue
 				}
-				for _, fn := range []string{"Compare", "Less", "Min", "Max"} {
+				fns := []string{"Compare", "Less", "Min", "Max"}
+				if i > 0 && j > 0 {
+					fns = fns[(i+j)%4:][:1]
+				}
+				for _, fn := range fns {
 					emit(Long{Fn: fn, Type: "string", N: 2, SPat: []LongStr{a, b}})
 				}
 			}
@@ -239,10 +257,10 @@ func genBig(t *rapid.T) Long {
 var specBig = pbt.Register(&pbt.Spec[Long]{
 	Property: "C20", Name: "C20.big",
 	Rule: "sizes at which a chunked / vectorised / parallel fast path would start, judged by the oracles of C20.wide (machine arithmetic modulo 2^bits, same-order IEEE loops, bytes.Compare, Min/Max by validity). " +
-		"Enumerated: Min/Max/Sum/Product with N = 2^k-1, 2^k, 2^k+1 arguments for k = 13..17, 49152 and 100000, at int8, int64, uint64, a named int32, float32, float64, complex128 and (Min/Max) N short strings: " +
+		"Enumerated: Min/Max/Sum/Product with N = 2^k-1, 2^k, 2^k+1 arguments for k = 13..17, 49152 and 100000 (quick tier: k = 14..17 and 49152), at int8, int64, uint64, a named int32, float32, float64, complex128 and (Min/Max) N short strings: " +
 		"the answer of Min/Max at both ends and around the places where the list would be cut into 2, 3, 5, 7 or 16 chunks (n/16, n/7-1, n/5, n/3, n/2-1, n/2, 2n/3, ...); wrapping integer sums and products with the " +
 		"deciding term at such places; float sums and products whose value depends on the order of evaluation (0.1 repeated, big+1-big cycles, 1+2^-60, one huge term / Inf / 0 / tiny negative factor among many); " +
-		"Compare, Less, Min, Max and Clamp on strings of 2^k-1, 2^k, 2^k+1 bytes for k = 13..20 that are equal, differ in the first / middle / last byte or are a prefix of each other. " +
+		"Compare, Less, Min, Max and Clamp on strings of 2^k-1, 2^k, 2^k+1 bytes for k = 13..20 (quick tier: k = 14..17 and 20) that are equal, differ in the first / middle / last byte or are a prefix of each other. " +
 		"Each case runs under runtime.GOMAXPROCS 1, 2, 3, 5, 6, 7 or the default (rotating with the case number) and two cases in five pass their arguments as a window into a larger poisoned buffer " +
 		"(1 element before, 5 or 64 elements of spare capacity; per type and size also two calls with more than 1 MiB of unused capacity). Then rapid draws: any type of C20.wide, N from the same classes or uniform in 5001..140000, " +
 		"patterns as in C20.long, any of the GOMAXPROCS settings, one call in three with a small window or with 2^16..2^18 elements of spare capacity. NaN never generated. " +
@@ -250,4 +268,164 @@ var specBig = pbt.Register(&pbt.Spec[Long]{
 	Enum: enumBig,
 	Gen:  genBig,
 	Run:  RunBig, Quick: 60, Thorough: 600,
+})
+
+// ---------------------------------------------------------------- C20.bigcoal
+
+var bigCoalTypes = []string{"int64", "string", "any", "stamp", "float64", "*int64", "error", "evenInt", "arr128"}
+
+// coalZst: Coal over n zero-size arguments. A slice of a zero-size type occupies no memory whatever its length, so
+// lengths beyond 2^32 are possible; the loop inside Coal still takes time proportional to n (about 0.5 ns per element),
+// which bounds n here (2^62 elements would run for decades on the unchanged library).
+func coalZst[T comparable](name string, n int) string {
+	var zero T
+	if unsafe.Sizeof(zero) != 0 {
+		return "harness error: " + name + " is not a zero-size type"
+	}
+	if got := typ.Coal(make([]T, n)...); got != zero {
+		return fmt.Sprintf("typ.Coal[%s](%d zero-size arguments) = %v, want the zero value", name, n, got)
+	}
+	return ""
+}
+
+const maxZstLead = 1<<32 + 64
+
+var zstTypes = []string{"struct{}", "[0]int64", "unit"}
+
+func RunBigCoal(c Special) pbt.Outcome {
+	if c.Fn != "Coal" || c.Procs < 0 || c.Procs > 64 {
+		return malformed()
+	}
+	if c.Procs > 0 {
+		defer runtime.GOMAXPROCS(runtime.GOMAXPROCS(c.Procs))
+	}
+	if c.Lead > maxBigLead { // only for the zero-size types, which need no memory
+		if c.Lead > maxZstLead || len(c.Vals) > 0 || len(c.Sets) > 0 || c.View != nil {
+			return malformed()
+		}
+		msg := ""
+		switch c.Type {
+		case "struct{}":
+			msg = coalZst[struct{}](c.Type, c.Lead)
+		case "[0]int64":
+			msg = coalZst[[0]int64](c.Type, c.Lead)
+		case "unit":
+			msg = coalZst[unit](c.Type, c.Lead)
+		default:
+			return malformed()
+		}
+		if msg != "" {
+			return pbt.Fail("%s", msg)
+		}
+		cls := "coal:zero-size-arguments>2^17"
+		if c.Lead > 1<<32 {
+			cls = "coal:zero-size-arguments>2^32"
+		}
+		return pbt.Outcome{Labels: []string{"fn:Coal", "type:Coal/" + c.Type, cls, fmt.Sprintf("big:gomaxprocs=%d", c.Procs)}, NonTrivial: true}
+	}
+	out := runSpecial(c, maxBigLead)
+	if out.Violation != "" || out.Skipped {
+		if out.Violation != "" && c.Procs > 0 {
+			out.Violation = fmt.Sprintf("with runtime.GOMAXPROCS(%d): %s", c.Procs, out.Violation)
+		}
+		return out
+	}
+	out.Labels = append(out.Labels, "big:args="+pow2Class(c.Lead+len(c.Vals)), fmt.Sprintf("big:gomaxprocs=%d", c.Procs))
+	out.NonTrivial = out.NonTrivial && c.Lead+len(c.Vals) >= 4096
+	return out
+}
+
+func enumBigCoal(shard, shards int, tier string, yield func(Special) bool) {
+	k := 0
+	stop := false
+	emit := func(c Special) {
+		if stop {
+			return
+		}
+		c.Fn = "Coal"
+		c.Procs = bigProcs[k%len(bigProcs)]
+		if c.View == nil && c.Lead <= maxBigLead {
+			switch k % 5 {
+			case 1:
+				c.View = &View{Off: 1, Spare: 5}
+			case 3:
+				c.View = &View{Off: 0, Spare: 64}
+			}
+		}
+		mine := k%shards == shard
+		k++
+		if mine && !yield(c) {
+			stop = true
+		}
+	}
+	sizes := bigSizes
+	if tier != "thorough" {
+		sizes = append(append([]int{}, bigSizes[3:15]...), 3<<14)
+	}
+	zst := []int{1 << 20, 1<<24 + 1}
+	if tier == "thorough" {
+		zst = append(zst, 1<<31+1, 1<<32+1)
+	}
+	for _, tn := range zstTypes {
+		for _, n := range zst {
+			emit(Special{Type: tn, Lead: n, View: nil})
+		}
+	}
+	for _, n := range sizes {
+		for _, tn := range bigCoalTypes {
+			if stop {
+				return
+			}
+			st := specialType_(tn)
+			if st == nil || len(st.nonzero) < 2 || len(st.zeroish) == 0 {
+				panic("C20.bigcoal: unsuitable type " + tn)
+			}
+			nz1, nz2 := st.nonzero[0], st.nonzero[len(st.nonzero)-1]
+			for li, z := range st.zeroish {
+				if li >= 2 {
+					break
+				}
+				emit(Special{Type: tn, Lead: n, LeadVal: z})
+				emit(Special{Type: tn, Lead: n - 1, LeadVal: z, Vals: []int{nz1}})
+				emit(Special{Type: tn, Lead: n - 3, LeadVal: z, Vals: []int{0, nz2, z}})
+			}
+			// the first non-zero argument around the places where the list would be cut into chunks, a different non-zero value later on
+			z := st.zeroish[0]
+			for _, p := range []int{0, n / 16, n/7 - 1, n / 3, n/2 - 1, n / 2, n - n/16, n - 2} {
+				emit(Special{Type: tn, Lead: n, LeadVal: z, Sets: []SpecialSet{{Pos: p, Val: nz1}, {Pos: n - 1, Val: nz2}}})
+				emit(Special{Type: tn, Lead: n, LeadVal: z, Sets: []SpecialSet{{Pos: p, Val: nz2}, {Pos: p + 1, Val: nz1}, {Pos: n/2 + n/4, Val: nz1}}})
+			}
+			if tn == "int64" || tn == "*int64" {
+				emit(Special{Type: tn, Lead: n, LeadVal: z, View: &View{Off: 2, Spare: 1<<17 + 1}})
+			}
+		}
+	}
+}
+
+func genBigCoal(t *rapid.T) Special {
+	st := specialType_(bigCoalTypes[rapid.IntRange(0, len(bigCoalTypes)-1).Draw(t, "type")])
+	c := Special{Fn: "Coal", Type: st.name, Lead: genBigSize(t, "lead"), Procs: bigProcs[rapid.IntRange(0, len(bigProcs)-1).Draw(t, "procs")]}
+	c.LeadVal = st.zeroish[rapid.IntRange(0, len(st.zeroish)-1).Draw(t, "leadval")]
+	for i, n := 0, rapid.IntRange(0, 3).Draw(t, "n"); i < n; i++ {
+		c.Vals = append(c.Vals, rapid.IntRange(0, st.n-1).Draw(t, "val"))
+	}
+	for i, n := 0, rapid.IntRange(0, 3).Draw(t, "nsets"); i < n; i++ {
+		c.Sets = append(c.Sets, SpecialSet{Pos: genLongPos(t, c.Lead+len(c.Vals), "setpos"), Val: rapid.IntRange(0, st.n-1).Draw(t, "setval")})
+	}
+	c.View = genView(t, 3)
+	return c
+}
+
+var specBigCoal = pbt.Register(&pbt.Spec[Special]{
+	Property: "C20", Name: "C20.bigcoal",
+	Rule: "Coal over 2^k-1, 2^k, 2^k+1 arguments for k = 13..17 and 49152, 100000 (quick tier: k = 14..17 and 49152) at int64, string, any, error, *int64, float64 (+0 and -0 as zeros), a 128-byte array and two types whose IsZero() disagrees with ==, " +
+		"tables and oracle of C20.special (the first argument that is != the zero value, or the zero value). Enumerated: all arguments zero(-ish); only the last one non-zero; zero, non-zero, zero at the end; " +
+		"the first non-zero argument at 0, n/16, n/7-1, n/3, n/2-1, n/2, n-n/16, n-2 with a different non-zero value at the very end, or directly after it and again at 3n/4. Each case under runtime.GOMAXPROCS 1, 2, 3, 5, 6, 7 " +
+		"or the default (rotating), two in five as a window into a larger buffer filled with a non-zero value (int64 and *int64 also with more than 1 MiB of unused capacity). Also Coal over 2^20 and 2^24+1 " +
+		"(thorough: 2^31+1, 2^32+1) arguments of the zero-size types struct{}, [0]int64 and a zero-size type with methods (such slices need no memory; Coal's running time is linear in the length, which is why " +
+		"2^62 is not tried). Then rapid draws over the same space (without the zero-size lists). " +
+		"non-trivial = at least 4096 arguments and the rule of C20.special (a zero precedes the answer, or two distinct non-zero values, or an argument whose IsZero() disagrees)",
+	Enum: enumBigCoal,
+	Gen:  genBigCoal,
+	Run:  RunBigCoal, Quick: 60, Thorough: 600,
 })
